@@ -51,6 +51,12 @@ pub const ONE: u128 = 1_000_000_000_000_000_000;
 pub const START_TIME: u64 = 1_000_000;
 /// Largest block time (seconds) representable by `cosmwasm_std::Timestamp` (u64 nanoseconds).
 pub const MAX_NOW: u64 = u64::MAX / 1_000_000_000;
+
+/// sub-second part of the block time at second `now`: 1 ..= 709_551_615 (so that MAX_NOW still fits in
+/// the u64 nanoseconds of `Timestamp`), a fixed function of `now`
+pub fn block_nanos(now: u64) -> u64 {
+    1 + (now.wrapping_mul(0x9E37_79B9_7F4A_7C15) >> 20) % 709_551_615
+}
 /// Maximum nesting depth of message dispatch (guard against runaway recursion; never reached by
 /// the six contracts).
 pub const MAX_DEPTH: usize = 64;
@@ -497,7 +503,10 @@ impl World {
         Env {
             block: BlockInfo {
                 height: self.height(),
-                time: Timestamp::from_seconds(self.now),
+                // block times on a chain carry a sub-second part; the contracts (and the model) use whole
+                // seconds only, so the mini-chain attaches a non-zero, deterministic nanosecond part to
+                // every block time: code that starts to look at it disagrees with the model
+                time: Timestamp::from_nanos(self.now * 1_000_000_000 + block_nanos(self.now)),
                 chain_id: "krp-verif".to_string(),
             },
             transaction: Some(TransactionInfo { index: 0 }),
@@ -1213,6 +1222,11 @@ impl<'w> Executor<'w> {
                     Ok(Err(e)) => return Err(e),
                     Err(()) => return Err("panic".to_string()),
                 };
+                // the environment model has no reply handlers (every sub-message of the contracts is
+                // `SubMsg::new`, i.e. ReplyOn::Never): a sub-message that asks for a reply is outside it
+                if resp.messages.iter().any(|s| s.reply_on != cosmwasm_std::ReplyOn::Never) {
+                    return Err("sub-message with reply_on: reply handlers are outside the environment model".to_string());
+                }
                 resp.messages.into_iter().map(|s| s.msg).collect()
             }
             None => {
@@ -1401,6 +1415,31 @@ pub fn run_tx(
     }
 }
 
+impl World {
+    /// One atomic transaction whose root message is the raw JSON `json`, sent by `sender` to
+    /// `contract` with `funds`: the same executor as every transaction operation (`run_tx`: real
+    /// `execute` entry point, full message routing, world restored on failure).  Used by
+    /// `surface-probe`, whose messages have no operation syntax.
+    pub fn execute_raw(
+        &mut self,
+        contract: &str,
+        sender: &str,
+        json: &[u8],
+        funds: &[(String, u128)],
+    ) -> crate::ops::OpResult {
+        let coins: Vec<Coin> = funds
+            .iter()
+            .map(|(d, a)| Coin { denom: d.clone(), amount: Uint128::new(*a) })
+            .collect();
+        match run_tx(self, sender, contract, &Binary::from(json.to_vec()), &coins) {
+            Ok(trace) => crate::ops::OpResult { ok: true, trace, error: None, failed_trace: vec![] },
+            Err((e, partial)) => {
+                crate::ops::OpResult { ok: false, trace: vec![], error: Some(e), failed_trace: partial }
+            }
+        }
+    }
+}
+
 /// `migrate C`: call the real `migrate` entry point of an instantiated contract on its current storage.
 /// The result is `ok` only if it returns `Ok` with no messages; on `Err`, panic or emitted messages
 /// the storage is restored (a migration that wants to send messages is outside the protocol).
@@ -1463,7 +1502,12 @@ where
         })
     };
     match r {
-        Ok(Ok(_resp)) => {
+        Ok(Ok(resp)) => {
+            if !resp.messages.is_empty() {
+                // no instantiate of the six contracts emits messages; one that does is outside the model
+                world.stores[idx].clear();
+                return Err("instantiate emitted messages: outside the environment model".to_string());
+            }
             world.inst[idx] = true;
             Ok(())
         }
